@@ -199,6 +199,13 @@ def run(ctx):
     for n, dens, prec, G in deep:
         plans.append(([random_sample_cfg(rng)], dens, prec, G, n, "\t"))
 
+    # rows that share a copy-number state but differ in error rate / tumour content (per-row parameters must not be
+    # shared between rows): every entry of these files is compared
+    for dens, prec in (("binomial", None), ("beta-binomial", "400")):
+        M, m = rng.choice([(2, 1), (3, 1), (2, 2)])
+        plans.append(([{"major": M, "minor": m, "normal": 2, "t": t, "err": e} for t, e in (("1", "0.001"), ("0.3", "0.2"), ("1", "0.0001"), ("0.05", "0.49"))],
+                      dens, prec, 5, rng.choice([4, 6]), "\t"))
+
     for k, (cfgs, dens, prec, G, n, sep) in enumerate(plans):
         path = os.path.join(tmp, "u%04d.%s" % (k, "tsv" if sep == "\t" else "csv"))
         rows = depth_rows(cfgs, n)
@@ -244,10 +251,14 @@ def run(ctx):
         # (ii) sampled entries against the exact-rational model
         n_ent = (6 if quick else 12) if n <= 60 else (3 if n <= 1000 else 2)
         tol = 1e-9 if n < 1000 else 1e-8
-        for _ in range(n_ent):
-            si = rng.randrange(len(cfgs))
-            i = rng.choice([0, G - 1, rng.randrange(G)])
-            x = rng.choice([0, n, rng.randrange(n + 1)])
+        shared_cn = len({(c["major"], c["minor"], c["normal"]) for c in cfgs}) < len(cfgs)
+        if shared_cn and n <= 12 and G <= 7:
+            entries = [(si, i, x) for si in range(len(cfgs)) for i in range(G) for x in range(n + 1)]
+        else:
+            entries = []
+            for _ in range(n_ent):
+                entries.append((rng.randrange(len(cfgs)), rng.choice([0, G - 1, rng.randrange(G)]), rng.choice([0, n, rng.randrange(n + 1)])))
+        for (si, i, x) in entries:
             ml = model_log(dens, prec, cfgs[si], G, i, n, x)
             il = float(vals[x, si, i])
             ctx.case(n=1, nontrivial=False)
